@@ -9,7 +9,9 @@ def run(chk):
                 'trash, a volume trash and a --trash-dir, with orphans and infos without payload, times DAYS in 0..3 and '
                 'no DAYS; the real trash-empty (clock through TRASH_DATE or the virtual clock) must remove exactly the '
                 'doomed pairs and leave the kept ones byte-identical (digest of payload, info unchanged). '
-                'non-trivial = something was purged. Calendar stage: random (now, date, DAYS) triples incl. +-1 s, +-1 day, leap days, years 1..9999, malformed and duplicated dates, on the real trash-empty; TLC evaluates Expired through DayNumber (Dates.tla)')
+                'non-trivial = something was purged. Calendar stage: random (now, date, DAYS) triples incl. +-1 s, +-1 day, leap days, years 1..9999, malformed and duplicated dates, on the real trash-empty; TLC evaluates Expired through DayNumber (Dates.tla). Stage concurrent-put: a real trash-put next to a real trash-empty 30 in '
+                'lock-step (all single pre-emptions, sampled pairs): what is being trashed is not old and must end as a complete '
+                'pair; spec/PutEmpty.tla (WithDays) model-checked')
     chk.assumptions += common.ASSUME + ['orphans are purged with and without DAYS (the property only demands it without)']
     common.mc(chk, properties=['PurgeFrame'])
     common.gen_tt(chk, 'days', 'Init_Dates', 'Next_EmptyDays', 10, 3000,
@@ -18,7 +20,60 @@ def run(chk):
                                    bool(g['pre']['strays'])), per_stratum=1, thorough_seeds=1)
     common.fun_laws(chk)
     common.fun_stage(chk, 'calendar', 'expiry', 60 if chk.tier == 'quick' else 1500)
+    concurrent_put(chk)
     chk.exhaustive = chk.tier != 'quick'
+
+
+def concurrent_put(chk):
+    """what trash-empty DAYS must keep includes what a trash-put running at the same time is just trashing (it is not old):
+    spec/PutEmpty.tla (WithDays) is model-checked, and real trash-put / trash-empty 30 pairs run in lock-step under every
+    schedule with up to 2 pre-emptions (sampled beyond 1); every observed state is judged by TLC (FsTrace)"""
+    import itertools
+    import random
+    from harness import opdrivers, opspec, tt
+    from harness.checks import opcommon
+    for name, kw, must_hold in (('putempty_days', dict(with_days=True), True),
+                                ('putempty_days_two', dict(with_days=True, procs=('p1', 'p2'), slots=('n', 'n1', 'n2')), True),
+                                ('putempty_days_snapshot', dict(with_days=True, emutant='snapshot'), False)):
+        r = opspec.run_putempty(name, **kw)
+        if must_hold:
+            chk.add_tlc('PutEmpty:' + name, r, constants=str(kw))
+        elif r.ok or not r.violated:
+            chk.machinery.append('PutEmpty: the snapshot design mutant is not refuted (%s)' % r.error)
+    rnd = random.Random('c10|pe|%s' % chk.seed)
+    quick = chk.tier == 'quick'
+    jobs = []
+    for kind in ('file', 'dir'):
+        base = opdrivers.run_put_vs_empty((kind, {}, chk.seed))
+        n = base['nsteps']
+        scheds = [{}] + [{str(k): t} for k in range(n) for t in ('p1', 'p2')]
+        two = [{str(a): x, str(b): y} for a, b in itertools.combinations(range(n), 2) for x, y in (('p2', 'p1'), ('p1', 'p2'))]
+        rnd.shuffle(two)
+        scheds += two[:150 if quick else 3000]
+        jobs += [(kind, s_, chk.seed) for s_ in scheds]
+    out = tt.pmap(opdrivers.run_put_vs_empty, jobs)
+    items, seen = [], set()
+    for o in out:
+        chk.traces += 1
+        chk.evaluations += o['nsteps']
+        if o['hung']:
+            chk.violation('concurrent-put:hung', 'process(es) %s did not finish under schedule %s' % (o['hung'], o['preempts']), {'kind': 'pe', 'item': o['preempts']})
+        if o['old_left'] or o['p2_exit'] != 0:
+            chk.violation('concurrent-put:old-entries-left', 'trash-empty 30 (exit %s) left old entries %s under schedule %s' % (
+                o['p2_exit'], o['old_left'], o['preempts']), {'kind': 'pe', 'preempts': o['preempts']})
+        for ob in o['obs']:
+            k = opdrivers.state_key([ob['state'], ob.get('done'), ob.get('res')])
+            if k in seen:
+                continue
+            seen.add(k)
+            chk.nontrivial.add(k)
+            items.append({'scen': 'put-vs-empty-' + o['kind'], 'preempts': o['preempts'], 'k': ob.get('k'), 'final': bool(ob.get('final')),
+                          'obs': ob, 'stderr': ob.get('stderr')})
+    chk.stage_stats['concurrent-put'] = {'schedules': len(out), 'distinct_states': len(items)}
+    opcommon.judge(chk, 'concurrent-put', items, lambda it: it['obs'], lambda it: it['scen'],
+                   lambda it: ['UniqueOwnership', 'InfoBeforePayload', 'NothingLost'] + (['FinalStateIsC01', 'AllSucceed'] if it['final'] else []),
+                   what_of=lambda it: '%s, pre-emptions %s, after step %s: %s %s' % (
+                       it['scen'], it['preempts'], it['k'], it['obs']['state'], it.get('stderr') or ''))
 
 
 def replay(path):
